@@ -1,4 +1,5 @@
 import Cell2v.Lemmas.ClientServe
+import Cell2v.Lemmas.ClientShared
 /-!
 C02 — every client request gets exactly one response, from the service its route names.
 
@@ -334,6 +335,14 @@ example : serve c0 s1 ⟨5, "gate.zoo.slow", .valid 3⟩ =
 example : served c0 s1 ⟨5, "chat.zoo.echo", .valid 3⟩ = some ("chat-1", "zoo", "echo", 3, .ok) := by decide
 example : serve c0 s1 ⟨5, "chat.zoo.late", .valid 3⟩ =
     [.invoke "chat-1" "zoo" "late" 3, .respond 31000 7 5 .error] := by decide
+-- handler durations on both sides of the 30 s request timeout: 29 s — the reply is relayed; 33 s — the timeout
+-- answers (forwarded) / the handler's own result (front-local: no timeout there)
+example : serve c0 s1 ⟨5, "chat.zoo.s29", .valid 3⟩ =
+    [.invoke "chat-1" "zoo" "s29" 3, .respond 29000 7 5 (.data "chat-1" "zoo" "s29" 3)] := by decide
+example : serve c0 s1 ⟨5, "chat.zoo.s33", .valid 3⟩ =
+    [.invoke "chat-1" "zoo" "s33" 3, .respond 31000 7 5 .error] := by decide
+example : serve c0 s1 ⟨5, "gate.zoo.s33", .valid 3⟩ =
+    [.invoke "gate-1" "zoo" "s33" 3, .respond 33000 7 5 (.data "gate-1" "zoo" "s33" 3)] := by decide
 example : served c0 s0 ⟨5, "chat.zoo.echo", .valid 3⟩ = none := by decide
 example : serve c0 s0 ⟨5, "chat.zoo.echo", .valid 3⟩ = [.respond 0 8 5 .error] := by decide
 example : serve c0 ⟨9, some "chat-9", true⟩ ⟨5, "chat.zoo.echo", .valid 3⟩ = [.respond 31000 9 5 .error] := by decide
@@ -355,6 +364,9 @@ example : (run fixed c0 St.init [.req s1 ⟨5, "chat.zoo.slow", .valid 1⟩, .re
 
 example : serve c0 s1 ⟨5, "gate.zoo.nan", .valid 3⟩ = [.invoke "gate-1" "zoo" "nan" 3, .respond 0 7 5 .error] := by decide
 example : serve c0 s1 ⟨5, "chat.zoo.nan", .valid 3⟩ = [.invoke "chat-1" "zoo" "nan" 3, .respond 0 7 5 .blank] := by decide
+-- a handler error with an EMPTY text takes the same two paths (error front-locally, empty success when forwarded)
+example : serve c0 s1 ⟨5, "gate.zoo.fail0", .valid 3⟩ = [.invoke "gate-1" "zoo" "fail0" 3, .respond 0 7 5 .error] := by decide
+example : serve c0 s1 ⟨5, "hall.zoo.fail0", .valid 3⟩ = [.invoke "hall-1" "zoo" "fail0" 3, .respond 0 7 5 .blank] := by decide
 example := unserialisable_result c0 s1 ⟨5, "chat.zoo.nan", .valid 3⟩ (by decide) (by decide) "chat-1" "zoo" "nan" 3 (by decide)
 
 example : serve c0 ⟨9, some "chat-9", true⟩ ⟨5, "chat.zoo.ech\uFFFD", .valid 3⟩ = [.respond 0 9 5 .error] := by decide
@@ -423,5 +435,223 @@ theorem d20_witness :
 /-- with the repair the same pipelined request is served like any other (instance of `request_served_by_target`) -/
 example : serve c0 ⟨7, none, false⟩ ⟨5, "hall.zoo.echo", .valid 3⟩ =
     [.invoke "hall-1" "zoo" "echo" 3, .respond 0 7 5 (.data "hall-1" "zoo" "echo" 3)] := by decide
+
+/-! ## (5) all requests share ONE front-end: mailbox, session table, pending table — every interleaving
+
+`Model/ClientShared.lean`: the front service as a single state machine (FIFO mailbox of client
+messages / key changes / back-end replies; routing keys read when a message is processed; request-id
+allocator and pending table of `RequestEx`; queues of the back-ends) driven by an adversarial
+scheduler: a schedule is ANY list of events (`send`, `setKey`, `front`, `back i`, `deliver i`,
+`fire i`, `expire i`).  Nothing below assumes that requests are independent: a reply is matched to a
+pending entry only through the request id it carries, exactly as `Service.handleResponse` does, and
+the theorems are invariants of the transition system. -/
+
+section shared
+open Cell2v.ClientServe.Shared
+
+/-- responses with this (connection, id) written so far -/
+def answers (st : FSt) (cn i : Nat) : Nat := wireCount cn i (st.out.map Wr.wire)
+
+/-- requests with this (connection, id) that will still be answered: queued in the mailbox, stored in
+the pending table, or completing through the front's timer -/
+def inFlight (st : FSt) (cn i : Nat) : Nat :=
+  st.pending.countP (pPend cn i) + st.mbox.countP (pTask cn i) + st.ltimers.countP (pOut cn i)
+
+theorem answers_eq (st : FSt) (cn i : Nat) : answers st cn i = st.out.countP (pOut cn i) := by
+  unfold answers wireCount
+  rw [List.countP_eq_length_filter]
+  generalize st.out = l
+  induction l with
+  | nil => rfl
+  | cons x xs ih =>
+    simp only [List.map_cons, List.filter_cons, Wr.wire, pOut]
+    by_cases h : x.s.sid = cn ∧ x.e.id = i <;> simp [h] <;> simpa [Wr.wire, pOut] using ih
+
+/-- messages on this (connection, id) that the owner dropped because it found no session for them -/
+def droppedCount (st : FSt) (cn i : Nat) : Nat := st.dropped.countP (pDrop cn i)
+
+/-- CONSERVATION under every schedule: at every moment, for every connection and non-zero id,
+responses written + requests still in flight + messages dropped for want of a session = messages
+sent with that id.  Never a duplicate, never a response to a request that was not made, never a
+request lost otherwise — whatever the order in which the owner, the back-ends, the network, the
+timers and the expiry scan take their steps, and whatever the back-end handlers do (`lose`, `dup`). -/
+theorem shared_conservation (c : Cfg) (evs : List Ev) (cn i : Nat) (hi : i ≠ 0) :
+    answers (Shared.run c {} evs) cn i + inFlight (Shared.run c {} evs) cn i +
+      droppedCount (Shared.run c {} evs) cn i = sentCount cn i evs := by
+  have h := Shared.total_run c cn i hi evs {} (good_init c)
+  rw [answers_eq]
+  unfold Shared.total at h
+  unfold inFlight droppedCount
+  simp only [List.countP_nil] at h
+  omega
+
+theorem shared_never_more (c : Cfg) (evs : List Ev) (cn i : Nat) (hi : i ≠ 0) :
+    answers (Shared.run c {} evs) cn i ≤ sentCount cn i evs := by
+  have := shared_conservation c evs cn i hi
+  omega
+
+/-- MAILBOX ORDER: a connection that is used the way a connection can be used (opened before anything
+is sent on it — `OnSessionCreate` posts the `AddSession` before the reader goroutine can post a
+message — and not closed) never loses a message: when the owner gets to a message of it, the session
+is registered.  (The order of the two posts is what repaired defect D20 relies on.) -/
+theorem shared_nothing_dropped (c : Cfg) (evs : List Ev) (cn : Nat) (hw : wellUsed cn false evs = true) (i : Nat) :
+    droppedCount (Shared.run c {} evs) cn i = 0 := by
+  unfold droppedCount
+  rw [List.countP_eq_zero]
+  intro x hx
+  have := wu_run c cn evs false {} hw (wu_init cn) x hx
+  simp only [pDrop, decide_eq_true_eq, not_and]
+  intro h1; exact absurd h1 this
+
+/-- EXACTLY ONE: whenever the front has nothing left to do (mailbox empty, nothing pending, no local
+completion outstanding) every well-used connection has received, for every non-zero id, exactly as
+many responses as it sent requests with that id. -/
+theorem shared_exactly_one (c : Cfg) (evs : List Ev) (hq : Quiet (Shared.run c {} evs)) (cn i : Nat) (hi : i ≠ 0)
+    (hw : wellUsed cn false evs = true) :
+    answers (Shared.run c {} evs) cn i = sentCount cn i evs := by
+  have := shared_conservation c evs cn i hi
+  have hd := shared_nothing_dropped c evs cn hw i
+  obtain ⟨h1, h2, h3⟩ := hq
+  unfold inFlight at this
+  rw [h1, h2, h3, hd] at this
+  simpa using this
+
+/-- … and that state is always reachable: from EVERY state of every schedule the owner, the expiry
+scan and the timers alone (no help from any back-end) bring the front to rest — no request can stay
+unanswered for ever (the forwarded ones because of the request timeout). -/
+theorem shared_can_quiesce (c : Cfg) (evs : List Ev) :
+    ∃ more, (∀ ev ∈ more, Internal ev) ∧ Quiet (Shared.run c {} (evs ++ more)) := by
+  obtain ⟨more, h1, h2⟩ := can_quiesce c (Shared.run c {} evs)
+  exact ⟨more, h1, by rw [Shared.run_append]; exact h2⟩
+
+/-- No response with id 0, under any schedule. -/
+theorem shared_no_response_to_notify (c : Cfg) (evs : List Ev) (cn : Nat) :
+    answers (Shared.run c {} evs) cn 0 = 0 := by
+  have hg := good_run c evs {} (good_init c)
+  rw [answers_eq, List.countP_eq_zero]
+  intro x hx
+  have := (hg.out_ok x hx).1
+  simp only [pOut, decide_eq_true_eq, not_and]
+  intro _ h0
+  exact this h0
+
+/-- NO CROSS-TALK: every response ever written, under any schedule, (1) names a message that was
+sent on the connection it is written to and carries that message's (envelope) id, and (2) is
+justified by THAT message (`Allowed`): front-local — it is exactly the response of the per-message
+model for it; forwarded — the timeout/failure error, or the result that its own target computed from
+its own envelope.  `s` is the session as it was when the owner processed the message. -/
+theorem shared_response_justified (c : Cfg) (evs : List Ev) (x : Wr) (hx : x ∈ (Shared.run c {} evs).out) :
+    (∃ m, (x.s.sid, m) ∈ sentMsgs evs ∧ x.e = envelope m) ∧ x.e.id ≠ 0 ∧ Allowed c x := by
+  have hg := good_run c evs {} (good_init c)
+  have hs := sourced_run c evs [] {} sourced_init
+  simp only [List.nil_append] at hs
+  exact ⟨hs.out x hx, hg.out_ok x hx⟩
+
+/-- Whatever data a client receives, under any schedule, was produced by the handler its own request
+names (group, method, its own payload value), running at the target of its own route. -/
+theorem shared_data_from_own_target (c : Cfg) (evs : List Ev) (x : Wr) (hx : x ∈ (Shared.run c {} evs).out)
+    (o g m : String) (v : Nat) (hres : x.res = .data o g m v) :
+    target c x.s (splitClientRoute x.e.route).1 = some o ∧ ∃ b, served c x.s x.e = some (o, g, m, v, b) := by
+  obtain ⟨_, hid, hal⟩ := shared_response_justified c evs x hx
+  obtain ⟨b, hb⟩ := allowed_data_origin c x hid hal o g m v hres
+  refine ⟨?_, b, hb⟩
+  unfold served at hb
+  simp only at hb
+  split at hb
+  · simp at hb
+  · rename_i svc ht
+    split at hb
+    · simp only [Option.some.injEq, Prod.mk.injEq] at hb
+      rw [← hb.1]; exact target_of_reachable c x.s x.e _ ht
+    · simp at hb
+
+/-- For a front-local request the shared machine and the per-message model agree exactly. -/
+theorem shared_front_local_is_serve (c : Cfg) (evs : List Ev) (x : Wr) (hx : x ∈ (Shared.run c {} evs).out)
+    (ht : (splitClientRoute x.e.route).1 = c.frontType) :
+    ∃ d, responses (processWith fixed c x.s x.e) = [(d, x.s.sid, x.e.id, x.res)] := by
+  obtain ⟨_, _, hal⟩ := shared_response_justified c evs x hx
+  unfold Allowed at hal
+  simpa [ht] using hal
+
+/-- Conversely the answer of the per-message model `serve` (the one compared with the code on every
+run) is always one of the answers the shared machine may give to that message. -/
+theorem serve_answer_allowed (c : Cfg) (s : Sess) (msg : ClientMsg) (hid : msg.id % idWrap ≠ 0) (d : Nat) (res : Result)
+    (h : responses (serve c s msg) = [(d, s.sid, msg.id % idWrap, res)]) : Allowed c ⟨s, envelope msg, res⟩ :=
+  serve_is_allowed c s (envelope msg) hid d res h
+
+/-- The "missmatch res" branch of `Forward`'s callback is dead in the machine — not by construction
+of a single call, but as an invariant of every schedule: a reply that reaches the front under the
+request id of a pending entry is the `msgs.Response` built for that entry's own envelope, so it
+carries that entry's `SessionId` and `ClientReqId` (request ids are allocated fresh; everything in
+transit carries an id below the allocator). -/
+theorem shared_reply_matches (c : Cfg) (evs : List Ev) (r : Nat) (rep : BackReply)
+    (hr : Task.reply r rep ∈ (Shared.run c {} evs).mbox) (e : PEntry) (he : e ∈ (Shared.run c {} evs).pending)
+    (hre : r = e.reqId) : rep.sessionId = e.s.sid ∧ rep.clientReqId = e.msg.id :=
+  ((good_run c evs {} (good_init c)).rep_ok r rep hr e he hre).echo
+
+/-- The pending table is a map: under every schedule no two pending entries share a request id (ids are
+allocated fresh), so "the first entry with this id" — the model's lookup — is "the entry with this
+id" — `Service.Handlers[reqId]`. -/
+theorem shared_pending_ids_unique (c : Cfg) (evs : List Ev) :
+    ((Shared.run c {} evs).pending.map PEntry.reqId).Nodup :=
+  unique_run c evs {} (good_init c) (by simp [UniqueIds])
+
+/-! non-vacuity: two clients on the run's configuration; the replies come back in the opposite
+order; a routing-key change overtakes nothing (it is processed in mailbox order: the first message of
+connection 7 goes to chat-1, the second to chat-2); the late reply of an expired request is dropped -/
+
+def sched1 : List Ev :=
+  [.open 7, .open 8, .front, .front,
+   .setKey 7 "chat-1", .send 7 ⟨5, "chat.zoo.echo", .valid 1⟩, .send 8 ⟨5, "hall.zoo.echo", .valid 2⟩,
+   .setKey 7 "chat-2", .send 7 ⟨6, "chat.zoo.echo", .valid 3⟩, .send 8 ⟨0, "gate.zoo.tell", .valid 4⟩,
+   .front, .front, .front, .front, .front, .front,      -- the owner: three requests pending (ids 0, 1, 2), three calls out
+   .back 2, .back 1, .back 0,                           -- the back-ends answer in the opposite order
+   .expire 1,                                           -- the request to hall-1 times out first …
+   .deliver 0, .deliver 0, .deliver 0, .front, .front, .front]   -- … its reply arrives later and finds no entry
+
+example : ((Shared.run c0 {} sched1).out.map Wr.wire) =
+    [(8, 5, .error), (7, 6, .data "chat-2" "zoo" "echo" 3), (7, 5, .data "chat-1" "zoo" "echo" 1)] := by decide
+example : ((Shared.run c0 {} sched1).inv) =
+    [("gate-1", "zoo", "tell", 4), ("chat-2", "zoo", "echo", 3), ("hall-1", "zoo", "echo", 2), ("chat-1", "zoo", "echo", 1)] := by decide
+example : Quiet (Shared.run c0 {} sched1) := by
+  refine ⟨?_, ?_, ?_⟩ <;> decide
+example := shared_exactly_one c0 sched1 (by refine ⟨?_, ?_, ?_⟩ <;> decide) 7 5 (by decide) (by decide)
+example := shared_nothing_dropped c0 sched1 8 (by decide) 5
+example : sentCount 7 5 sched1 = 1 ∧ sentCount 8 5 sched1 = 1 ∧ sentCount 8 0 sched1 = 1 := by decide
+-- mid-schedule: one answered nothing yet, three requests in flight
+example : inFlight (Shared.run c0 {} (sched1.take 16)) 7 5 = 1 ∧ answers (Shared.run c0 {} (sched1.take 16)) 7 5 = 0 := by
+  decide
+
+/-! back-end handlers that never complete or complete twice (`lose`, `dup`): the theorems above hold
+for these schedules too — a forwarded request needs no "completes exactly once" assumption -/
+
+def sched2 : List Ev :=
+  [.open 7, .setKey 7 "chat-1", .send 7 ⟨5, "chat.zoo.echo", .valid 1⟩, .send 7 ⟨6, "chat.zoo.echo", .valid 2⟩,
+   .front, .front, .front, .front,
+   .lose 0,                                  -- the handler of request 5 never completes
+   .back 0, .dup 0,                          -- the handler of request 6 completes twice
+   .deliver 0, .deliver 0, .front, .front,   -- first reply relayed, second is a miss response
+   .expire 0]                                -- request 5: the timeout error
+
+example : ((Shared.run c0 {} sched2).out.map Wr.wire) =
+    [(7, 6, .data "chat-1" "zoo" "echo" 2), (7, 5, .error)] := by decide
+example := shared_exactly_one c0 sched2 (by refine ⟨?_, ?_, ?_⟩ <;> decide) 7 6 (by decide) (by decide)
+
+-- a message posted on a connection the owner has not (or no longer) registered is dropped, not answered:
+-- sent before the open, and after the close was processed
+def sched3 : List Ev :=
+  [.send 9 ⟨1, "gate.zoo.echo", .valid 1⟩, .open 9, .front, .front, .send 9 ⟨2, "gate.zoo.echo", .valid 2⟩, .front,
+   .close 9, .send 9 ⟨3, "gate.zoo.echo", .valid 3⟩, .front, .front]
+example : ((Shared.run c0 {} sched3).out.map Wr.wire) = [(9, 2, .data "gate-1" "zoo" "echo" 2)] ∧
+    droppedCount (Shared.run c0 {} sched3) 9 1 = 1 ∧ droppedCount (Shared.run c0 {} sched3) 9 3 = 1 ∧
+    wellUsed 9 false sched3 = false := by decide
+
+-- the back-only group of the run: a forwarded handler that never completes / completes twice
+example : serve c0 s1 ⟨5, "chat.zoob.hang", .valid 3⟩ = [.invoke "chat-1" "zoob" "hang" 3, .respond 31000 7 5 .error] := by decide
+example : serve c0 s1 ⟨5, "hall.zoob.okboom", .valid 3⟩ =
+    [.invoke "hall-1" "zoob" "okboom" 3, .respond 0 7 5 (.data "hall-1" "zoob" "okboom" 3)] := by decide
+example : serve c0 s1 ⟨5, "gate.zoob.hang", .valid 3⟩ = [.respond 0 7 5 .error] := by decide
+
+end shared
 
 end Cell2v.Props.C02
